@@ -28,6 +28,10 @@ CHECKS_ALL = {
                 text="Hybrid. Deductive: ModelSpec.term_indices (loop invariant over prefix sums: contiguous, disjoint, in term order, covering), column_names (concatenation), column_indices, get_column_indices, term_slices, __structure: every obligation discharged by z3 for all structures (unbounded). The same contract text is evaluated on every real call made by a materialization workload (CPython cross-check / counterexample search). Bounded: every accessor compared with a recomputation from the generated matrix on ~5000 formulas x data x outputs; subset() regenerates the parent's columns.",
                 note="assumes Term objects modelled modulo Term.__eq__ (string lookup by printed form is the known finding D13); dict insertion order; the link structure<->actual labels is bounded only",
                 technique="contract-based deductive verification: VCs generated from the real AST (pyvc), discharged by z3/cvc5; runtime-contract bounded stand-in for the end-to-end link"),
+    "C12": dict(category="exploration", enabled=True,
+                text="Bounded (DESIGN.md section 4 C12: the Cox-de Boor recursion and the cubic-spline linear algebra are out of the verifier's reach): basis_spline judged against an independent Cox-de Boor spec function in exact Fraction arithmetic on the recorded knot vector, fully crossed over degree 0..5 x knots/df (with ties) x bounds x intercept x 5 extrapolation modes on grids containing knots, boundaries, out-of-range points and NaN; cubic splines judged against the cardinal natural/periodic spline from an exact moment solve (identity at the knots, zero centred column means).",
+                note="bounded stand-in, never counted as proved; tolerance 1e-9 absolute on spline values; thorough tier cross-checks the oracles against scipy; four genuine defects found and repaired (fix commits S1-S4 in known_findings.json)",
+                technique="runtime contracts on the real functions against exact-arithmetic spec functions over a crossed parameter grid (bounded stand-in of the contract family)"),
     "C13": dict(category="exploration", enabled=True,
                 text="Bounded: scale/center/standardize contracts (zero mean, unit std for ddof, replay of recorded statistics) on all vectors over {-2..2}^n, n<=4 plus seeded vectors of length 2..50 and magnitude 1e-6..1e6; poly judged against exact Fraction Gram-Schmidt; TRANSFORMS entries against the math module and as inverse pairs.",
                 note="bounded stand-in; float tolerance 32*n*eps*kappa (kappa = exact cancellation factor); depends on the exp10 fix commit",
